@@ -131,6 +131,7 @@ class C06Model(Oracle):
         import re
         self.enabled = not any(re.match(r"^\s*([0-9.]+ )?(Pause|Hold|Stop|Restart|Unpause|Unhold)\b", c)
                                for _, c in plan["method"])
+        self._ctl_re = re.compile(r"\b(Pause|Hold|Stop|Restart|Unpause|Unhold)\b")
         self.m = (False, False, False)        # (running, holding, paused)
         self.settle = -1
         self.rid_before: str | None = None
@@ -142,8 +143,13 @@ class C06Model(Oracle):
             return
         w = self.w
         if kind != "control" or msg.name not in self.LAT:
+            if kind == "control":
+                return        # a UOD command button does not touch the control state (a failing one leaves the fragment
+                #               through the error check in after_tick)
+            if kind == "inject" and not self._ctl_re.search(getattr(msg, "pcode", "") or ""):
+                return        # injected code without a control instruction: likewise
             if accepted and not (kind == "edit" and self.settle < 0):    # the initial method load is not a live edit
-                self.enabled = False          # injected code / edits / cancel / force / UOD commands: outside the fragment
+                self.enabled = False          # control code injected / edits / cancel / force: outside the fragment
             return
         if not accepted:
             return
